@@ -75,8 +75,14 @@ impl Runner {
         let wall_cap: u64 = std::env::var("VERIF_WALL_CAP_S").ok().and_then(|s| s.parse().ok()).unwrap_or(if tier == "thorough" { 4 * 3600 } else { 900 });
         let rss_cap_gb: u64 = std::env::var("VERIF_RSS_CAP_GB").ok().and_then(|s| s.parse().ok()).unwrap_or(40);
         let started = std::time::Instant::now();
+        let hang_cap: u64 = std::env::var("VERIF_HANG_CAP_S").ok().and_then(|s| s.parse().ok()).unwrap_or(60);
         std::thread::spawn(move || loop {
-            std::thread::sleep(std::time::Duration::from_secs(2));
+            std::thread::sleep(std::time::Duration::from_secs(1));
+            mccore::panics::TICK.fetch_add(1, std::sync::atomic::Ordering::Relaxed);
+            let longest = mccore::panics::longest_call_in_progress();
+            if longest > hang_cap {
+                mccore::panics::report_hang(longest);
+            }
             let rss_pages: u64 = std::fs::read_to_string("/proc/self/statm").ok().and_then(|s| s.split_whitespace().nth(1).and_then(|x| x.parse().ok())).unwrap_or(0);
             let rss_gb = rss_pages * 4096 / (1 << 30);
             if started.elapsed().as_secs() > wall_cap || rss_gb > rss_cap_gb {
